@@ -166,6 +166,23 @@ func checkC18(p *load.Program, r *kit.Report) {
 				return false, rr.PathTo(ret, p.Pos)
 			}
 			ok1, path1 := behind(edgesOf(vg, true))
+			if !ok1 && len(vg) == 0 {
+				// Verify's error is merged with the lookup's before it is tested (`if err == nil {
+				// err = Wrap(proof.Verify()) }; if err != nil { return }`): no test of its own, so the
+				// two halves are asked separately — no success without calling Verify, and no success
+				// once Verify has failed
+				ok1, path1 = true, ""
+				skip := kit.Reach(f, []kit.Pt{kit.Entry(f)}, kit.Opts{StopAt: kit.InstrSet(verify)})
+				if skip.Has(ret) && skip.ErrClass(ret) != kit.ErrNonNil {
+					ok1, path1 = false, skip.PathTo(ret, p.Pos)
+				}
+				if ok1 {
+					failed := kit.Reach(f, kit.After(verify), kit.Opts{AssumeNonNil: []ssa.Value{verify}})
+					if failed.Has(ret) && failed.ErrClass(ret) != kit.ErrNonNil {
+						ok1, path1 = false, failed.PathTo(ret, p.Pos)
+					}
+				}
+			}
 			ok2, path2 := behind(lookups)
 			key := k.key("VerifyMerkleProof/success")
 			switch {
@@ -226,6 +243,9 @@ func checkC18(p *load.Program, r *kit.Report) {
 }
 
 func checkC19(p *load.Program, r *kit.Report) {
+	importRules(p, r, "C17", "locators are built from the best chain: a descendant branch that survives the trim of an invalidated header keeps the invalidated chain as the tip the locator starts from", 2, nil, "TRIM-SHAPE")
+	importRules(p, r, "C11", "after a restart the best chain is what Branch.Save wrote: headers of an abandoned chain left in a branch file come back between the fork and the tip, and the locator names them", 2,
+		func(o *kit.Obligation) bool { return strings.HasPrefix(o.Construct, "Branch.Save") }, "MERGE-SHAPE")
 	importRules(p, r, "C17", "locators are built from repo.longest: after MarkHeaderInvalid removed branches the tip must be re-selected, or the locator names removed headers", 1,
 		func(o *kit.Obligation) bool { return strings.Contains(o.Construct, "reselect-after-trim") }, "MUST-PASS")
 	importRules(p, r, "C10", "a locator names the base of every tracked side branch: pruning must keep the headers side branches fork from", 1, nil, "COVER-ALL")
